@@ -1,8 +1,10 @@
 package checks
 
 import (
+	"crypto/sha256"
 	"encoding/json"
 	"fmt"
+	"github.com/trustbloc/bbs-signature-go/bbs12381g2pub"
 	"sort"
 	"strings"
 
@@ -51,7 +53,7 @@ func c17Doc(r *fw.Rand) (*docdid.Doc, []c17Key, string) {
 	nk := r.Intn(4)
 	shape := ""
 	for _, frag := range genPick(r, []string{"key-1", "auth", "k2", "signing_key", "z"}, nk) {
-		typ := fw.Pick(r, []string{gen.TJwk2020, gen.TEd2018, gen.TEd2020, gen.TSecp})
+		typ := fw.Pick(r, []string{gen.TJwk2020, gen.TEd2018, gen.TEd2020, gen.TSecp, gen.TBls})
 		var vm *docdid.VerificationMethod
 		curve := gen.Ed25519
 		if typ == gen.TJwk2020 {
@@ -62,7 +64,22 @@ func c17Doc(r *fw.Rand) (*docdid.Doc, []c17Key, string) {
 		}
 		k := gen.NewKey(r, curve)
 		raw := typ == gen.TEd2018 && r.Bool()
-		if raw {
+		if typ == gen.TBls {
+			// a BLS12-381 G2 key in JWK form: kty EC, crv BLS12381_G2, one coordinate
+			pub, _, err := bbs12381g2pub.GenerateKeyPair(sha256.New, r.Bytes(32))
+			if err != nil {
+				continue
+			}
+			j, err := jwksupport.JWKFromKey(pub)
+			if err != nil {
+				continue
+			}
+			v, err := docdid.NewVerificationMethodFromJWK(frag, typ, "", j)
+			if err != nil {
+				continue
+			}
+			vm = v
+		} else if raw {
 			x, _ := k.XY()
 			vm = docdid.NewVerificationMethodFromBytes(frag, typ, "", x)
 		} else {
